@@ -43,6 +43,17 @@ template <class T> static std::vector<Case<T>> pair_cases(T p, Rng& g, int nrand
         for (T x : xs) for (T y : ys) if (x < p && y < p) v.push_back({x, y, 0});
       }
   }
+  // integer products k*p + eps for small k with one small factor (true quotient tiny: "small operand" shortcuts, and the
+  // number of conditional subtractions a reduction needs): x small, y = floor(k*p/x) + {0,1}
+  if (structured) {
+    using G = typename nfl::params<T>::greater_value_type;
+    T smalls[] = {2, 3, 5, 7, (T)((1u << 10) + 1), (T)((1u << 13) + 3), (T)(bits<T>() > 32 ? ((1ull << 31) - 1) : 251), (T)(bits<T>() > 32 ? ((1ull << 33) + 7) : 16381)};
+    for (T x : smalls) for (int k = 1; k <= 3; k++) {
+      G kp = (G)k * p;
+      T y0 = (T)(kp / x);
+      for (T y : {y0, (T)(y0 + 1), (T)(y0 + 2)}) if (y < p && x < p) { v.push_back({x, y, 0}); v.push_back({y, x, 0}); }
+    }
+  }
   for (auto& c : v) c.c = rnd_below<T>(g, p);
   v[0].c = (T)(p - 1); v[1].c = 0;
   return v;
